@@ -320,6 +320,28 @@ func checkC05(c *Check) {
 		for _, cp := range []cmp{{"tlsLevel", "TLSAuthenticated"}, {"mxLevel", "MX_MTASTS"}} {
 			// in the REQUIRETLS world: remove edges establishing RequireTLS false, and edges establishing "level < required" false... i.e.
 			// MAIL must be unreachable when RequireTLS is true and the level is below the requirement.
+			mkWorld := func(g *RuleCtx) func(b *cfgBlock, i int) bool {
+				return func(b *cfgBlock, i int) bool {
+					cond, isCase := g.F.Cond(b)
+					if cond == nil || isCase {
+						return false
+					}
+					for _, af := range atomsOnEdge(cond, i) {
+						if isReqTLS(af.E) && !af.T {
+							return true
+						}
+						if be, ok := ast.Unparen(af.E).(*ast.BinaryExpr); ok && isField(g.Info, be.X, "mxConn", cp.field) {
+							if s, ok := ast.Unparen(be.Y).(*ast.SelectorExpr); ok && s.Sel.Name == cp.level {
+								truth := map[token.Token]bool{token.LSS: true, token.LEQ: true, token.NEQ: true, token.GEQ: false, token.GTR: false, token.EQL: false}
+								if t, ok := truth[be.Op]; ok && t != af.T {
+									return true
+								}
+							}
+						}
+					}
+					return false
+				}
+			}
 			avoid := func(b *cfgBlock, i int) bool {
 				cond, isCase := r.F.Cond(b)
 				if cond == nil || isCase {
@@ -342,15 +364,25 @@ func checkC05(c *Check) {
 				return false
 			}
 			sawCmp := false
-			ast.Inspect(r.FI.Decl.Body, func(n ast.Node) bool {
-				if be, ok := n.(*ast.BinaryExpr); ok && isField(r.Info, be.X, "mxConn", cp.field) {
-					if s, ok := ast.Unparen(be.Y).(*ast.SelectorExpr); ok && s.Sel.Name == cp.level {
-						sawCmp = true
+			seeCmp := func(info *types.Info, body ast.Node) {
+				ast.Inspect(body, func(n ast.Node) bool {
+					if be, ok := n.(*ast.BinaryExpr); ok && isField(info, be.X, "mxConn", cp.field) {
+						if s, ok := ast.Unparen(be.Y).(*ast.SelectorExpr); ok && s.Sel.Name == cp.level {
+							sawCmp = true
+						}
+					}
+					return true
+				})
+			}
+			seeCmp(r.Info, r.FI.Decl.Body)
+			for _, call := range callsIn(r.FI.Decl.Body) {
+				if fn := callee(r.Info, call); fn != nil && fn.Pkg() == r.FI.Obj.Pkg() {
+					if d := c.P.DeclOf(fn); d != nil && d.Decl.Body != nil {
+						seeCmp(d.Info(), d.Decl.Body)
 					}
 				}
-				return true
-			})
-			path, f := r.F.Reach(Query{From: r.Entry(), Inclusive: true, Target: isPt(mail), AvoidEdge: avoid})
+			}
+			path, f := r.F.Reach(Query{From: r.Entry(), Inclusive: true, Target: isPt(mail), AvoidEdge: orEdge(avoid, r.GateEdges(mkWorld))})
 			c.Hold("R5", "connectionForDomain:"+cp.field, r.FI.Decl.Pos(), sawCmp && !f && len(mail) > 0, "with REQUIRETLS and "+cp.field+" below "+cp.level+" the message is still sent: "+r.F.Describe(path))
 		}
 		// pool bypass: the pooled connection is used only on edges establishing RequireTLS false
